@@ -399,6 +399,17 @@ def run_scenario(sc: dict) -> dict:
     for hi, h in enumerate(sc['handlers']):
         deco = kopf.on.mutate if h['kind'] == 'mutate' else kopf.on.validate
         kwargs: dict[str, Any] = dict(registry=registry, id=h['id'], param=hi)
+        if h.get('field'):
+            # h['id'] is the id as kopf forms it (generate_id: "<id>/<field>"): declare it without the suffix
+            suffix = '/' + h['field']
+            if not h['id'].endswith(suffix):
+                raise ValueError(f"scenario: handler id {h['id']!r} must end with {suffix!r}")
+            kwargs['id'] = h['id'][:-len(suffix)]
+            kwargs['field'] = h['field']
+            v = h.get('value')
+            if v is not None:
+                kwargs['value'] = (kopf.PRESENT if v['kind'] == 'present' else kopf.ABSENT if v['kind'] == 'absent' else
+                                   (lambda eq: (lambda value, **_: value == eq))(v['eq']) if v['kind'] == 'callback' else v['v'])
         if h.get('operations') is not None:
             kwargs['operations'] = list(h['operations'])
         if h.get('subresource') is not None:
@@ -521,6 +532,44 @@ def labels_match(flt: dict | None, obj: dict) -> bool:
     return all(labels.get(k) == v for k, v in flt.items())
 
 
+FIELDS = ['spec.replicas', 'spec.paused', 'metadata.labels.app']
+
+
+def field_matches(h: dict, obj: Any) -> bool:
+    """field= / value= of a webhook handler, evaluated on the reviewed object ONLY (the object; the old object on DELETE,
+    as kopf documents): None = the field exists; PRESENT / ABSENT; a callback on the value (None when absent); a literal."""
+    if not h.get('field'):
+        return True
+    cur: Any = obj
+    for k in h['field'].split('.'):
+        if not isinstance(cur, dict) or k not in cur:
+            cur = MISSING
+            break
+        cur = cur[k]
+    v = h.get('value')
+    if v is None or v['kind'] == 'present':
+        return cur is not MISSING
+    if v['kind'] == 'absent':
+        return cur is MISSING
+    if v['kind'] == 'callback':
+        return (None if cur is MISSING else cur) == v['eq']
+    return cur is not MISSING and strict_eq(cur, v['v'])
+
+
+def set_field(obj: dict, field: str, val: Any) -> None:
+    """Give the dotted field this value in the object (MISSING: remove it); parents are made mappings."""
+    keys = field.split('.')
+    d = obj
+    for k in keys[:-1]:
+        if not isinstance(d.get(k), dict):
+            d[k] = {}
+        d = d[k]
+    if val is MISSING:
+        d.pop(keys[-1], None)
+    else:
+        d[keys[-1]] = val
+
+
 def text_allows(h: dict, sc: dict) -> dict:
     """Each clause of 'only handlers matching the webhook id, operation, subresource and filters run, mutating ones not
     on DELETE unless they opted in' for one declared handler."""
@@ -531,7 +580,7 @@ def text_allows(h: dict, sc: dict) -> dict:
         'reason': sc.get('reason') is None or sc['reason'] == {'mutate': 'mutating', 'validate': 'validating'}[h['kind']],
         'operation': ops is None or sc['op'] in ops,
         'subresource': h.get('subresource') == '*' or h.get('subresource') == sc['sub'],
-        'filters': (h.get('when') is not False) and labels_match(h.get('labels'), body)
+        'filters': (h.get('when') is not False) and labels_match(h.get('labels'), body) and field_matches(h, body)
                    and h.get('resource', 'kopfexamples') == 'kopfexamples',
         'delete': h['kind'] != 'mutate' or sc['op'] != 'DELETE' or (ops is not None and 'DELETE' in ops),
     }
@@ -540,7 +589,8 @@ def text_allows(h: dict, sc: dict) -> dict:
 def extra_of(h: dict, sc: dict) -> bool:
     """The oracle boolean of the selection model: every criterion other than id/reason/operation/subresource."""
     body = sc['object'] if sc['object'] is not None else sc.get('old')
-    return (h.get('when') is not False) and labels_match(h.get('labels'), body) and h.get('resource', 'kopfexamples') == 'kopfexamples'
+    return (h.get('when') is not False) and labels_match(h.get('labels'), body) and field_matches(h, body) \
+        and h.get('resource', 'kopfexamples') == 'kopfexamples'
 
 
 def monitor_scenario(ctx: fw.Ctx, sc: dict, obs: dict) -> None:
@@ -1006,6 +1056,13 @@ class Gen18:
             old = copy.deepcopy(body)
             if isinstance(old.get('spec'), dict) and r.random() < 0.7:
                 old['spec'][self.key()] = self.leaf()
+        flt_field = r.choice(FIELDS) if r.random() < 0.45 else None
+        if flt_field:
+            vals: list[Any] = [0, 3, MISSING] if 'labels' not in flt_field else ['v', 'w', MISSING]
+            new_v = r.choice(vals)
+            set_field(body, flt_field, new_v)
+            if old is not None:
+                set_field(old, flt_field, r.choice([x for x in vals if x is not new_v]) if r.random() < 0.85 else new_v)
         obj: Any = body
         if op == 'DELETE' and r.random() < 0.7 and old is not None:
             obj = None     # the API server sends no new object on deletion
@@ -1041,6 +1098,12 @@ class Gen18:
                     h['labels'] = {'app': r.choice(['v', 'w'])}
                 if r.random() < 0.05:
                     h['resource'] = 'otherthings'
+                if flt_field and r.random() < 0.6:
+                    vals2: list[Any] = [0, 3] if 'labels' not in flt_field else ['v', 'w']
+                    h['field'] = flt_field
+                    h['value'] = r.choice([None, {'kind': 'present'}, {'kind': 'absent'}, {'kind': 'literal', 'v': r.choice(vals2)},
+                                           {'kind': 'literal', 'v': r.choice(vals2)}, {'kind': 'callback', 'eq': r.choice(vals2 + [None])}])
+                    h['id'] = h['id'] + '/' + flt_field
                 handlers.append(h)
         r.shuffle(handlers)
         mut_fns = sorted({h['fn'] for h in handlers if h['kind'] == 'mutate'}) or list(range(nfn))
@@ -1120,6 +1183,8 @@ def scenario_cases(ctx: fw.Ctx, sc: dict, D: dict[str, list[fw.Case]], tag: str 
     ctx.count('operation', str(sc['op']))
     ctx.count('subresource', str(sc['sub']))
     ctx.count('handlers_selected', str(len(ran)))
+    for h in sc['handlers']:
+        ctx.count('handler_filters', ('field+' + ('none' if h.get('value') is None else h['value']['kind'])) if h.get('field') else 'no field filter')
     ctx.count('outcome', 'raised:' + obs['raised'] if obs['raised'] else ('allowed' if obs['response']['response']['allowed'] else 'denied'))
     for e in obs['log']:
         ctx.count('handler_outcome', 'ok' if e['exc'] is None else ['admission', 'permanent', 'temporary'][specificity(herror_of(e['exc']))]
@@ -1387,6 +1452,33 @@ def selection_table(ctx: fw.Ctx, D: dict[str, list[fw.Case]], stride: int) -> No
         ctx.count('selection_table', 'selected' if ran else 'not selected')
 
 
+def field_table(ctx: fw.Ctx, D: dict[str, list[fw.Case]]) -> None:
+    """One handler with field= (+ value=: none, literal, PRESENT, ABSENT, callback) against CREATE / UPDATE / DELETE reviews whose
+    object and old object carry every combination of {0, 3, absent} in that field."""
+    vals: list[Any] = [0, 3, MISSING]
+    specs = [None, {'kind': 'literal', 'v': 0}, {'kind': 'literal', 'v': 3}, {'kind': 'present'}, {'kind': 'absent'},
+             {'kind': 'callback', 'eq': 0}, {'kind': 'callback', 'eq': None}]
+    for vs in specs:
+        for op in ('CREATE', 'UPDATE', 'DELETE'):
+            for new_v in vals:
+                for old_v in (vals if op != 'CREATE' else [None]):
+                    if op == 'DELETE' and new_v is not vals[0]:
+                        continue            # no new object on deletion: only the old one varies
+                    obj: Any = {'spec': {'keep': 1}}
+                    set_field(obj, 'spec.replicas', new_v)
+                    old: Any = None
+                    if op != 'CREATE':
+                        old = {'spec': {'keep': 1}}
+                        set_field(old, 'spec.replicas', old_v)
+                    sc = {'op': op, 'sub': None, 'webhook': None, 'reason': None, 'object': None if op == 'DELETE' else obj, 'old': old,
+                          'dryrun': False, 'uid': 'uid-1',
+                          'functions': [{'warnings': ['w'], 'patch': [], 'fns': [], 'raise': {'cls': 'adm', 'args': ['filtered in'], 'code': 403}}],
+                          'handlers': [{'id': 'h/spec.replicas', 'fn': 0, 'kind': 'validate', 'operations': None, 'subresource': None,
+                                        'when': None, 'field': 'spec.replicas', 'value': vs}]}
+                    ctx.count('field_filter', f'{"field only" if vs is None else vs["kind"]} on {op}')
+                    scenario_cases(ctx, sc, D)
+
+
 def pointer_cases(ctx: fw.Ctx, G: Gen18, n: int, D: dict[str, list[fw.Case]]) -> None:
     """RFC 6901 reference tokens: the spec's escaping/parsing against the jsonpointer library."""
     K.load()
@@ -1440,6 +1532,7 @@ def run(ctx: fw.Ctx) -> int:
                              'handlers': [{'id': 'fn0', 'fn': 0, 'kind': 'mutate', 'operations': None, 'subresource': None, 'when': None}]}, D)
     for i in range(ctx.scale(260, 4000)):
         scenario_cases(ctx, G.scenario(), D)
+    field_table(ctx, D)
     direct_patch_cases(ctx, G, ctx.scale(350, 6000), D)
     response_cases(ctx, G, ctx.scale(200, 3000), D, exhaustive_k=4)
     selection_table(ctx, D, stride=ctx.scale(12, 1))
